@@ -350,6 +350,29 @@ pub fn op_parse(s: &str) -> String {
             });
         }
     }
+    // the generic doors take any `AsRef<str>` / `Into<String>`: with an argument whose `as_ref()` answers differently on
+    // every call (safe code can write one), whatever is accepted must still be valid pointer text — the text that was
+    // validated has to be the text that is wrapped
+    {
+        struct Flaky {
+            texts: [String; 2],
+            calls: std::cell::Cell<usize>,
+        }
+        impl AsRef<str> for Flaky {
+            fn as_ref(&self) -> &str {
+                let n = self.calls.get();
+                self.calls.set(n + 1);
+                &self.texts[n.min(1)]
+            }
+        }
+        let other = if valid_pointer(s) { "no-leading-slash/~".to_string() } else { "/ok".to_string() };
+        for (a, b) in [(s.to_string(), other.clone()), (other, s.to_string())] {
+            let f = Flaky { texts: [a, b], calls: std::cell::Cell::new(0) };
+            if let Some(Ok(p)) = guard(|| Pointer::parse(&f).map(|p| p.as_str().to_string())) {
+                law_align.ck(valid_pointer(&p), "parse_accepts_text_it_did_not_validate");
+            }
+        }
+    }
     o.law("law_align", &law_align);
     o.law("law_doors", &law_doors);
     o.law("law_same_ptr", &law_same_ptr);
@@ -764,6 +787,9 @@ pub fn op_conv(p: &Pointer) -> String {
         matches!(serde_json::to_value(p.to_buf()), Ok(serde_json::Value::String(ref s)) if s == text),
     );
     ck("ser", ser.as_deref() == Some(text));
+    // … as ONE STRING, for every serializer: a recording serializer that refuses every other shape
+    ck("ser_shape_pointer", matches!(serde::Serialize::serialize(p, OnlyStr), Ok(ref s) if s == text));
+    ck("ser_shape_pointerbuf", matches!(serde::Serialize::serialize(&p.to_buf(), OnlyStr), Ok(ref s) if s == text));
     for t in p.tokens() {
         let enc = t.encoded().to_string();
         ck("tok_to_owned", t.to_owned().encoded() == enc);
@@ -820,6 +846,34 @@ pub fn op_deser(s: &str) -> String {
         let mut place2 = PointerBuf::parse(init.to_string()).expect("valid");
         let r2 = <PointerBuf as serde::Deserialize>::deserialize_in_place(de2, &mut place2);
         law.ck(r2.is_ok() == valid && valid_pointer(place2.as_str()) && (r2.is_err() || place2.as_str() == s), "in_place_owned_string");
+    }
+    // the byte-string carriers (`visit_bytes` / `visit_borrowed_bytes` / `visit_byte_buf`, used by binary formats): no
+    // panic; whatever is accepted is valid pointer text and exactly the bytes that were given; a valid pointer given as
+    // bytes is not an occasion to crash (the root pointer is the empty byte string)
+    {
+        use serde::de::value::{BorrowedBytesDeserializer, BytesDeserializer};
+        let mut variants: Vec<Vec<u8>> = vec![s.as_bytes().to_vec()];
+        let mut bad = s.as_bytes().to_vec();
+        bad.push(0xff);
+        variants.push(bad);
+        let mut bad2 = vec![b'/', 0xc3];
+        bad2.extend_from_slice(s.as_bytes());
+        variants.push(bad2);
+        for v in &variants {
+            let r1 = guard(|| <PointerBuf as Deserialize>::deserialize(BytesDeserializer::<DeError>::new(v)).ok().map(|b| b.as_str().to_string()));
+            let r2 = guard(|| <PointerBuf as Deserialize>::deserialize(BorrowedBytesDeserializer::<DeError>::new(v)).ok().map(|b| b.as_str().to_string()));
+            let r3 = guard(|| <&Pointer as Deserialize>::deserialize(BorrowedBytesDeserializer::<DeError>::new(v)).ok().map(|b| b.as_str().to_string()));
+            for (n, r) in [("bytes_owned", r1), ("borrowed_bytes_owned", r2), ("borrowed_bytes_borrowed", r3)] {
+                match r {
+                    None => law.fail(&format!("{n}_panicked")),
+                    Some(Some(t)) => {
+                        law.ck(valid_pointer(&t), &format!("{n}_accepted_invalid_text"));
+                        law.ck(t.as_bytes() == v.as_slice(), &format!("{n}_text_differs_from_the_bytes_given"));
+                    }
+                    Some(None) => {}
+                }
+            }
+        }
     }
     o.law("law_refuse", &law);
     o.finish()
